@@ -12,6 +12,7 @@ mod fdl;
 mod gsd;
 mod dp;
 mod bus;
+mod apps;
 mod util;
 
 use std::io::{BufRead, Write};
@@ -31,6 +32,7 @@ const DOMAINS: &[(&str, GenFn, RunFn)] = &[
     ("gsd", gsd::gen, gsd::run_case),
     ("dp", dp::gen, dp::run_case),
     ("bus", bus::gen, bus::run_case),
+    ("apps", apps::gen, apps::run_case),
 ];
 
 fn main() {
